@@ -1,10 +1,14 @@
 from cfg.common import FLOAT_ASSUMPTION, NOTE_COMMON
+from cfg.train_kernels_pre import (regen as regen_train_kernels, TRAIN_KERNEL_THEOREMS_FOR, TRAIN_KERNEL_TRUSTED,
+                                   TRAIN_KERNEL_ASSUMPTION)
 
 PROP = {
     'anchors': [('track/path_track/speed_point.rs', 'insert_speed'), ('track/path_track/path_tpc.rs', 'add_speeds'), ('track/path_track/path_tpc.rs', 'extend'), ('train/braking_point.rs', 'calc_speeds'), ('train/braking_point.rs', 'recalc'), ('train/speed_limit_train_sim.rs', 'solve_required_pwr'), ('train/speed_limit_train_sim.rs', 'solve_step'), ('train/speed_limit_train_sim.rs', 'walk_internal'), ('train/speed_limit_train_sim.rs', 'extend_path'), ('train/friction_brakes.rs', 'set_cur_force_max_out')],
     'blocks': ['train'],
-    'proof_modules': ['C03'],
-    'namespaces': ['Altrios.Proofs.C03'],
+    'pre': [regen_train_kernels],
+    'trusted_extra': [TRAIN_KERNEL_TRUSTED],
+    'proof_modules': ['C03', 'TrainKernels'],
+    'namespaces': ['Altrios.Proofs.C03', 'Altrios.Proofs.TrainKernels'],
     'required_theorems': [
         'Altrios.Proofs.C03.C03_calcSpeeds_spec',
         'Altrios.Proofs.C03.C03_calcSpeeds_safe',
@@ -23,7 +27,7 @@ PROP = {
         'Altrios.Proofs.C03.C03_recalc_establishes_pre',
         'Altrios.Proofs.C03.C03_never_overspeeds_counterexample',
         'Altrios.Proofs.C03.C03_never_reverses_counterexample',
-    ],
+    ] + TRAIN_KERNEL_THEOREMS_FOR['C03'],
     'nontrivial_stats': ['train.sl.step_ok'],
     'rule': 'each evaluation is one real speed-limited step (whole solve_step, solve_required_pwr, calc_speeds, friction brake) '
             'on generated routes (grades to 1.2 %, restriction patterns incl. short faster windows), path supplied whole, link by '
@@ -33,13 +37,13 @@ PROP = {
     'assumptions': [FLOAT_ASSUMPTION,
                     'PARTIAL: the closed-loop claim (no overspeed / no panic / termination for all tracks) is searched by the '
                     'oracle, not proved; proved are the ingredients listed in the level text',
-                    'sqrt is a parameter of the model (Float.sqrt in the driver; correctly rounded on both sides)'],
+                    'sqrt is a parameter of the model (Float.sqrt in the driver; correctly rounded on both sides)'] + [TRAIN_KERNEL_ASSUMPTION],
 }
 
 TEXT = {
     'design_ref': '§7.12',
     'note': NOTE_COMMON + ' The composition of the proved ingredients into the closed-loop statement is validated per run only.',
-    'technique': 'Lean 4 proof of the controller ingredients (partial) + bit-exact correspondence + oracle search on whole runs',
+    'technique': 'Lean 4 proof of the controller ingredients (partial) + bit-exact correspondence + oracle search on whole runs + translator tie (the straight-line train kernels are re-translated from the Rust text on every run and proved equal to the model)',
     'text': ('PARTIAL. Kernel-checked ingredients: BrakingPoints::recalc (modelled, Braking.lean) always yields points with 0 <= target <= limit, first (end,0,0), last the first '
              'speed point (C03_recalc_inv; true of the repaired code, fix: d396bcb); calc_speeds lands on the bracket, returns target = min of the targets in the look-ahead window, '
              'hence target <= limit, its only reachable panic is the overspeed assertion, and its precondition is re-established along a run (C03_calcSpeeds_*); an accepted step '
